@@ -83,7 +83,7 @@ class Database:
 
     @property
     def alias(self):
-        return self.data.setdefault('alias', {})
+        return self.data.get('alias', {})
 
     @property
     def dataset_names(self):
